@@ -41,6 +41,9 @@ def source_hash():
     return h.hexdigest()
 
 
+BANK_VERSION = "2"  # bump when the way configurations are turned into inputs changes (invalidates the cache)
+
+
 def cfg(geometry="lsn", options=None, neq=65, psi_sign=1.0, fpol="const", pressure=False, wall="box", kind="tokamak", label=None, **extra):
     c = dict(kind=kind, geometry=geometry, options=dict(options or {}), neq=neq, psi_sign=psi_sign, fpol=fpol, pressure=pressure, wall=wall)
     c.update(extra)
@@ -49,7 +52,7 @@ def cfg(geometry="lsn", options=None, neq=65, psi_sign=1.0, fpol="const", pressu
 
 
 def key(c):
-    return hashlib.sha256((source_hash() + json.dumps(c, sort_keys=True, default=str)).encode()).hexdigest()[:24]
+    return hashlib.sha256((BANK_VERSION + source_hash() + json.dumps(c, sort_keys=True, default=str)).encode()).hexdigest()[:24]
 
 
 def _mla_dict(m):
@@ -92,6 +95,8 @@ def tokamak_inputs(c):
     base = BASE_OPTS["sn" if "sn" in geom else ("cdn" if geom == "cdn" else "ddn")]
     opts = dict(base)
     opts.update(c["options"])
+    # refinement time-out generous enough not to depend on how busy the 16 cores are
+    opts.setdefault("refine_timeout", 120.0)
     we = 0.2
     rmin, rmax, zmin, zmax = r1d.min() + we, r1d.max() - we, z1d.min() + we, z1d.max() - we
     if c["wall"] == "box":
@@ -175,7 +180,7 @@ def build_mesh(c):
         from hypnotoad.cases.circular import CircularEquilibrium
         from hypnotoad.core.mesh import BoutMesh
 
-        opts = dict(number_of_processors=1)
+        opts = dict(number_of_processors=1, refine_timeout=120.0)
         opts.update(c["options"])
         eq = CircularEquilibrium(opts)
         mesh = BoutMesh(eq, opts)
